@@ -164,7 +164,8 @@ SnapAll(s) == LET s1 == SnapBegin(s) IN IF s1.spc = "taken" THEN SnapFinish(Snap
 
 \* COMPACTION (full: all files of the file set)
 En_CompBegin(s) == /\ s.up /\ s.cpc = "idle" /\ s.dpc = "idle" /\ s.nC < MaxCompact
-                   /\ (Cardinality(s.fset) >= 2 \/ \E f \in s.fset : f.dead # {})
+                   \* the planner's precondition (not FullyCompacted): more than one generation, or tombstones
+                   /\ (Cardinality({f.gen : f \in s.fset}) >= 2 \/ \E f \in s.fset : f.dead # {})
 CompBegin(s) == [s EXCEPT !.cgroup = {Id(f) : f \in s.fset}, !.cpc = "planned", !.nC = @ + 1]
 CompTmp(s) ==
   LET grp == {f \in s.fset : Id(f) \in s.cgroup}
@@ -221,7 +222,9 @@ DelCache(s) == [s EXCEPT !.dcur = [@ EXCEPT !.ck = {k \in s.dcur.ks : HasKey(s.c
 DelWal(s) == IF s.dcur.ck = {} THEN [s EXCEPT !.dpc = "wal"]                    \* WAL.DeleteRange with no keys: no entry
              ELSE LET s1 == AppendTail(s, DEntry(s.dcur.ck, s.dcur.lo, s.dcur.hi))
                   IN [s1 EXCEPT !.synced = Len(TailSeg(s1)), !.dpc = "wal"]
-DelIndex(s) == LET live == UNION {KeysIn(Vis(f)) : f \in s.fset} \cup KeysIn(s.cache)
+\* (a key that was found in the hot store before the delete is re-checked with Cache.Values, which merges the
+\*  snapshot store: only such keys see an in-flight snapshot - relevant under F14 only)
+DelIndex(s) == LET live == UNION {KeysIn(Vis(f)) : f \in s.fset} \cup KeysIn(s.cache) \cup {k \in s.dcur.ck : HasKey(s.snap, k)}
                    gone == {x \in Series : KeysOf({x}) \cap s.dcur.ks # {} /\ KeysOf({x}) \cap live = {}}
                IN [s EXCEPT !.idx = @ \ gone, !.dpc = "next"]
 DelDone(s) == [s EXCEPT !.acked = Zap(@, KeysOf(s.dcur.S), s.dcur.lo, s.dcur.hi), !.dcur = NoD, !.dpc = "idle"]
